@@ -6,18 +6,19 @@ pub open spec fn commit_spec(powers: &Powers, p: Seq<FS>, blind: Seq<FS>) -> FS 
 }
 // what `open` returns: a commitment to quotient polynomials w, wr with
 //   p(x) = w(x)(x - z) + p(z),   r(x) = wr(x)(x - z) + r(z)   (wr only if the commitment is hiding)
-pub open spec fn open_spec(powers: &Powers, p: &Poly, point: Fr, rand: &Randomness, proof: Proof) -> bool {
+pub open spec fn open_spec_seq(pg: Seq<G1Affine>, pgamma: Seq<G1Affine>, p: &Poly, point: Fr, rand: &Randomness, proof: Proof) -> bool {
     exists|w: Poly, hw: Option<Poly>| #![trigger w.cv(), hw.is_some()]
         (forall|x: FS| p.ev(x) == f_add(f_mul(#[trigger] w.ev(x), f_sub(x, point@)), p.ev(point@)))
         && (hw is Some) == !rand.blinding_polynomial.is_zero_spec()
         && (hw is Some ==> (forall|x: FS| rand.blinding_polynomial.ev(x) == f_add(f_mul(#[trigger] hw->Some_0.ev(x), f_sub(x, point@)), rand.blinding_polynomial.ev(point@))))
-        && proof.w@ == f_add(msm(powers.powers_of_g@, w.cv(), w.len()),
-              match hw { Some(h) => msm(powers.powers_of_gamma_g@, h.cv(), min(powers.powers_of_gamma_g@.len(), h.len())), None => f_zero() })
+        && proof.w@ == f_add(msm(pg, w.cv(), w.len()),
+              match hw { Some(h) => msm(pgamma, h.cv(), min(pgamma.len(), h.len())), None => f_zero() })
         && (proof.random_v is Some) == (hw is Some)
         && (hw is Some ==> proof.random_v->Some_0@ == rand.blinding_polynomial.ev(point@))
-        && w.len() <= powers.powers_of_g@.len()
+        && w.len() <= pg.len()
         && (hw is Some ==> hw->Some_0.len() + 1 <= rand.blinding_polynomial.len() || hw->Some_0.len() == 0)
 }
+pub open spec fn open_spec(powers: &Powers, p: &Poly, point: Fr, rand: &Randomness, proof: Proof) -> bool { open_spec_seq(powers.powers_of_g@, powers.powers_of_gamma_g@, p, point, rand, proof) }
 
 // Key material in trapdoor form (this is what KZG10::setup + trim establish, see units/kzg10_setup.rs):
 pub open spec fn srs_ok(powers: &Powers, vk: &VerifierKey, beta: FS) -> bool {
